@@ -190,19 +190,33 @@ theorem chain_reset_unwritten (c : Chain) (transport proto msg : Nat) :
 /-! ### shared upstream lookups -/
 
 /-- **Followers get copies, ids are the callers' own.** All callers that share
-one flight's result receive pairwise distinct allocations, none of them the
+one flight's result — whether their request was shared or lookup-owned (a
+QNAME-minimised probe: the `Bool` of each caller) — receive pairwise distinct allocations, none of them the
 leader's message; each carries its own caller's id and the flight's content. -/
-theorem shared_lookup_copied (leader : Msg) (ids : List Nat) (next : Nat) (hn : leader.addr < next) :
-    (shareAll leader ids next).map (·.id) = ids ∧
+theorem shared_lookup_copied (leader : Msg) (ids : List (Nat × Bool)) (next : Nat) (hn : leader.addr < next) :
+    (shareAll leader ids next).map (·.id) = ids.map (·.1) ∧
     (∀ m ∈ shareAll leader ids next, m.addr ≠ leader.addr ∧ m.body = leader.body) ∧
     ((shareAll leader ids next).map (·.addr)).Nodup := by
   obtain ⟨h1, h2, h3⟩ := shareAll_spec leader ids next hn
   exact ⟨h1, fun m hm => ⟨by have := (h2 m hm).1; omega, (h2 m hm).2⟩, h3⟩
 
 /-- an unshared result is handed over as is, with the caller's id -/
-theorem unshared_lookup_id (leader : Msg) (reqId next : Nat) :
-    (groupLookupResult false leader reqId next).1.id = reqId ∧ (groupLookupResult true leader reqId next).1.id = reqId := by
+theorem unshared_lookup_id (leader : Msg) (owned : Bool) (reqId next : Nat) :
+    (groupLookupResult false owned leader reqId next).1.id = reqId ∧
+    (groupLookupResult true owned leader reqId next).1.id = reqId := by
   simp [groupLookupResult]
+
+/-! ### DNS-over-QUIC streams -/
+
+/-- **Each QUIC stream carries exactly its own reply.** For any interleaving of
+stream accepts and handler completions on one connection (handlers finish in
+any order, a later query may finish first), what is written is, for each
+completing handler `i`, its own reply (id 0, length-prefixed) on the `i`-th
+accepted stream — never on the stream accepted last. -/
+theorem doq_reply_on_own_stream (evs : List DoqEvent) :
+    (({} : DoqConn).run evs).out = specDoq [] evs := by
+  have := (doq_run_spec evs {} rfl).1
+  simpa using this
 
 /-! ### facts regenerated from the tree (one-directional side conditions) -/
 
@@ -314,7 +328,11 @@ example : (serveStream {} program 4 (clientStream [qWrite, qResp, qWrite]) [true
     frame [0xab, 0xcd, 0x81, 0, 0x41, 0x41] ++ frame [0xab, 0xcd, 0x81, 0, 0x41, 0x41] := by decide
 
 -- share: three followers of one flight
-example : (shareAll { addr := 1, id := 500, body := 7 } [10, 20, 30] 2).map (fun m => (m.addr, m.id)) = [(2, 10), (3, 20), (4, 30)] := by
+example : (shareAll { addr := 1, id := 500, body := 7 } [(10, false), (20, true), (30, true)] 2).map (fun m => (m.addr, m.id)) = [(2, 10), (3, 20), (4, 30)] := by
   decide
+
+-- doq: three streams, the first handler finishes last: its reply still leaves on stream 4
+example : (({} : DoqConn).run [.accept 4, .accept 8, .accept 12, .complete 2 (some [9, 9, 3]), .complete 1 none,
+    .complete 0 (some [7, 7, 1])]).out = [(12, [0, 3, 0, 0, 3]), (4, [0, 3, 0, 0, 1])] := by decide
 
 end SdnsVerif.Props.C10
